@@ -207,6 +207,18 @@ class ElabWorld(World):
                                 f"{cls_name}: after elaboration a further add() gives {got}, on a "
                                 f"never-elaborated instance of the same configuration {want}",
                                 key=f"extend-after-elaboration:{cls_name}")
+            if got[0] == "ok":
+                # ... and the extended component must elaborate to the hardware a component
+                # gets that was extended before it was ever elaborated
+                t1 = guarded(len(ops), "rtlil.convert() after a further add()",
+                             lambda: rtlil.convert(b.dut, ports=ports))
+                t2 = rtlil.convert(twin.dut, ports=[s for _, s in twin.inputs + twin.outputs])
+                stats.checks += 1
+                if t1 != t2:
+                    raise Violation("C19", "elaborations-yield-different-hardware", len(ops),
+                                    f"{cls_name}: extended after an elaboration, it converts to "
+                                    f"different hardware than a twin extended before any elaboration",
+                                    key=f"extend-then-elaborate-differs:{cls_name}")
         if n_elab >= 2:
             stats.work += 1
         stats.state("class(elaborations)", f"{cls_name},{min(n_elab, 4)}")
